@@ -256,8 +256,28 @@ where
     let SubscriptionMeta { instrument_map, .. } = WebSocketSubMapper::map::<Ex, I, K>(subs);
     let (tx, _rx) = tokio::sync::mpsc::unbounded_channel();
     let mut tf = futures::executor::block_on(<StatelessTransformer<Ex, I::Key, K, M> as ExchangeTransformer<Ex, I::Key, K>>::init(instrument_map, &[], tx)).map_err(|e| e.to_string())?;
-    Ok(payloads.iter().map(|p| serde_json::from_str::<M>(p).map(|m| tf.transform(m)).map_err(|e| e.to_string())).collect())
+    let outs: Outs<I::Key, K::Event> = payloads.iter().map(|p| serde_json::from_str::<M>(p).map(|m| tf.transform(m)).map_err(|e| e.to_string())).collect();
+    // the same messages BUFFERED during subscription validation: ExchangeWsStream::init replays them through the real process_buffered_events;
+    // whatever a parsable message yields on the live path - events of the subscribed instrument or the unidentifiable-subscription error - it
+    // yields there too, in order (an unparsable one is dropped on that path)
+    {
+        use barter_integration::protocol::websocket::{WebSocketParser, WsMessage};
+        let SubscriptionMeta { instrument_map, .. } = WebSocketSubMapper::map::<Ex, I, K>(subs);
+        let (tx, _rx) = tokio::sync::mpsc::unbounded_channel();
+        if let Ok(mut tf2) = futures::executor::block_on(<StatelessTransformer<Ex, I::Key, K, M> as ExchangeTransformer<Ex, I::Key, K>>::init(instrument_map, &[], tx)) {
+            let show = |r: &Result<MarketEvent<I::Key, K::Event>, DataError>| match r { Ok(ev) => format!("event for instrument {:?}", ev.instrument), Err(e) => format!("error {e:?}") };
+            let live: Vec<String> = outs.iter().filter_map(|o| o.as_ref().ok()).flatten().map(show).collect();
+            let buffered = barter_data::process_buffered_events::<WebSocketParser, _>(&mut tf2, payloads.iter().map(|p| WsMessage::text(p.clone())).collect());
+            let replayed: Vec<String> = buffered.iter().map(show).collect();
+            if live != replayed && !BUFFERED_SEEN.swap(true, std::sync::atomic::Ordering::Relaxed) {
+                report(L_BUFFERED, format!("{} subscription(s); messages buffered during subscription validation, in order: {payloads:?}", subs.len()), format!("process_buffered_events yields {replayed:?}"), format!("{live:?} (what the live path yields for the same messages)"));
+            }
+        }
+    }
+    Ok(outs)
 }
+const L_BUFFERED: &str = "C13.bounded.buffered_messages_are_attributed_like_live_ones";
+static BUFFERED_SEEN: std::sync::atomic::AtomicBool = std::sync::atomic::AtomicBool::new(false);
 
 struct St { seen: HashSet<&'static str>, n: u64 }
 
